@@ -60,3 +60,34 @@ def _sample_enc(rnd):
     for k, v in (("_g_len", len(data)), ("_g_bytes", data), ("_g_invalid", False)):
         object.__setattr__(img, k, v)
     return {"self": o, "image": img, "revert": rnd.random() < 0.5}
+
+
+# ----------------------------------------------------------------------------------------------------------------------
+# Certificate block v2.1 root key record: the flags announce the root that really signs (index, count, curve, CA)
+# ----------------------------------------------------------------------------------------------------------------------
+from spsdk.crypto.keys import PublicKeyEcc  # noqa: E402
+from spsdk.utils.crypto.cert_blocks import RootKeyRecord  # noqa: E402
+
+
+def RKR(n):
+    return Obj(RootKeyRecord, ca_flag=OneOf(False, True), used_root_cert=Range(0, n - 1),
+               root_certs=ListOf(Obj(PublicKeyEcc, curve=OneOf("secp256r1", "secp384r1")), n))
+
+
+@contract("spsdk.utils.crypto.cert_blocks:RootKeyRecord._calculate_flags")
+def _(self: Union[RKR(1), RKR(2), RKR(3), RKR(4)]) -> int:
+    # bit 31 CA, bits 11..8 index of the root key whose public key the record carries, bits 7..4 number of root keys, bits 3..0 curve of root 0
+    returns((2 ** 31 if self.ca_flag else 0) + self.used_root_cert * 256 + len(self.root_certs) * 16 + (1 if self.root_certs[0].curve == "secp256r1" else 2),
+            label="ca-used-root-index-count-curve-in-their-fields")
+    pure()
+    sample_with(lambda rnd: {"self": _mk_rkr(rnd)})
+
+
+def _mk_rkr(rnd):
+    from spsdk.crypto.keys import EccCurve, PrivateKeyEcc
+
+    n = rnd.randrange(1, 5)
+    r = RootKeyRecord(ca_flag=rnd.random() < 0.5, root_certs=[], used_root_cert=rnd.randrange(n))
+    c = rnd.choice([EccCurve.SECP256R1, EccCurve.SECP384R1])
+    r.root_certs = [PrivateKeyEcc.generate_key(c).get_public_key() for _ in range(n)]
+    return r
